@@ -1351,8 +1351,8 @@ impl Engine for ReopenEngine {
             for _ in 0..2 {
                 out.push(gen_many_txns(rng));
             }
-            let start = 8192 - rng.range(60, 120);
-            out.push(gen_rollback_sweep(rng, start, 200));
+            let start = 8192 - rng.range(40, 90);
+            out.push(gen_rollback_sweep(rng, start, 140));
         }
         out
     }
